@@ -624,6 +624,19 @@ def m_clone(c, call, v):
     return clone_val(v)
 
 
+@reg('Clone::clone_from', 'Vec::clone_from', 'String::clone_from')
+def m_clone_from(c, call, r, src):
+    new = clone_val(src)
+    if isinstance(r, LRef):
+        r.set(new); return UNIT
+    v = deref(r); n = deref(new)
+    if isinstance(v, VecV) and isinstance(n, VecV):
+        v.items = list(n.items); return UNIT
+    if isinstance(v, StrV) and isinstance(n, StrV):
+        v.b = list(n.b); return UNIT
+    raise Unsupported('clone_from through transparent ref of ' + type(v).__name__)
+
+
 @regp(r'^(u8|u16|u32|u64|usize|i32|i64)::(leading_zeros|trailing_zeros|count_ones)$')
 def m_bitcount(c, call, v):
     n = v.size(); k = conc(v) if is_conc(v) else None
